@@ -37,6 +37,7 @@ func Corpus() *Program {
 	p.Enums = []Enum{
 		{Name: "Mode", Values: []string{"MODE_UNKNOWN", "MODE_ON", "MODE_OFF"}},
 		{Name: "Color", Values: []string{"COLOR_NONE", "COLOR_RED", "COLOR_BLUE", "COLOR_GREEN"}},
+		{Name: "Power", Values: []string{"OFF", "ON", "STANDBY"}}, // a zero constant with a "real" name
 	}
 	msg := func(name string, oneofs []string, fs ...Field) {
 		p.Messages = append(p.Messages, Message{Name: name, Fields: fs, Oneofs: oneofs})
@@ -48,7 +49,8 @@ func Corpus() *Program {
 	msg("WithOneof", []string{"Var"},
 		fld("Label", 1, KString),
 		fld("VarS", 2, KString, oneof("Var")), fld("VarI", 3, KInt64, oneof("Var")),
-		fld("VarM", 4, KMessage, ref("Leaf"), oneof("Var")))
+		fld("VarM", 4, KMessage, ref("Leaf"), oneof("Var")),
+		fld("VarP", 5, KEnum, ref("Power"), oneof("Var")))
 	msg("Mid", []string{"Choice"},
 		fld("Name", 1, KString),
 		fld("Leaf", 2, KMessage, ref("Leaf")),
@@ -65,7 +67,7 @@ func Corpus() *Program {
 		fld("FUint32", 5, KUint32), fld("FUint64", 6, KUint64), fld("FSint32", 7, KSint32), fld("FSint64", 8, KSint64),
 		fld("FFixed32", 9, KFixed32), fld("FFixed64", 10, KFixed64), fld("FSfixed32", 11, KSfixed32), fld("FSfixed64", 12, KSfixed64),
 		fld("FBool", 13, KBool), fld("FString", 14, KString), fld("FBytes", 15, KBytes),
-		fld("FEnum", 16, KEnum, ref("Mode")),
+		fld("FEnum", 16, KEnum, ref("Mode")), fld("FPower", 19, KEnum, ref("Power")),
 		fld("FCastS", 17, KString, cast("MyString")), fld("FCastI", 18, KInt32, cast("MyInt")))
 
 	msg("Temporal", nil,
@@ -92,6 +94,8 @@ func Corpus() *Program {
 		fld("ChA", 2, KString, oneof("Choice")), fld("ChB", 3, KInt32, oneof("Choice")),
 		fld("ChC", 4, KEnum, ref("Mode"), oneof("Choice")), fld("ChD", 5, KMessage, ref("Leaf"), oneof("Choice")),
 		fld("ChE", 6, KMessage, ref("Empty"), oneof("Choice")),
+		fld("ChF", 11, KEnum, ref("Power"), oneof("Choice")), fld("ChG", 12, KEnum, ref("Color"), oneof("Choice")),
+		fld("ChH", 13, KBool, oneof("Choice")), fld("ChI", 14, KDouble, oneof("Choice")), fld("ChJ", 15, KBytes, oneof("Choice")),
 		fld("pick_s", 7, KString, oneof("lower_pick")), fld("pick_l", 8, KMessage, ref("Leaf"), oneof("lower_pick")),
 		fld("Items", 9, KMessage, ref("WithOneof"), list()),
 		fld("ByKey", 10, KMessage, ref("WithOneof"), mapOf(), nonNull()))
@@ -107,13 +111,18 @@ func Corpus() *Program {
 		fld("EmbV", 2, KMessage, ref("EmbV"), embed(), nonNull()),
 		fld("EmbP", 3, KMessage, ref("EmbP"), embed()))
 
-	msg("EmbO", []string{"EvChoice"},
+	msg("EmbO", []string{"EvChoice", "ev_second"},
 		fld("EoStr", 1, KString),
-		fld("EvA", 2, KString, oneof("EvChoice")), fld("EvB", 3, KInt32, oneof("EvChoice")))
+		fld("EvA", 2, KString, oneof("EvChoice")), fld("EvB", 3, KInt32, oneof("EvChoice")),
+		fld("EwA", 4, KString, oneof("ev_second")), fld("EwB", 5, KBool, oneof("ev_second")))
+	msg("EmbO2", []string{"ExChoice"},
+		fld("ExA", 1, KInt64, oneof("ExChoice")), fld("ExB", 2, KMessage, ref("Leaf"), oneof("ExChoice")))
+	// three oneof groups promoted from two by-value embedded messages
 	msg("EmbedOneof", nil,
 		fld("Top", 1, KString),
 		fld("EvAMid", 3, KString), // sorts between the promoted branches EvA and EvB when sort is on
-		fld("EmbO", 2, KMessage, ref("EmbO"), embed(), nonNull()))
+		fld("EmbO", 2, KMessage, ref("EmbO"), embed(), nonNull()),
+		fld("EmbO2", 4, KMessage, ref("EmbO2"), embed(), nonNull()))
 
 	msg("EmbD", nil,
 		fld("EdStr", 1, KString), fld("EdList", 2, KString, list()), fld("EdLeaf", 3, KMessage, ref("Leaf")))
